@@ -52,6 +52,8 @@ GROUP = {"backoff_delay": "Recon", "should_attempt_reconnect": "Recon", "record_
          "crit_extend_to": "Crit", "crit_is_critical_now": "Crit",
          "cc_loss_permille": "Cc", "cc_update_backoff_efficacy": "Cc", "cc_observe_traffic": "Cc",
          "cc_pick_climb_mode": "Cc", "cc_update_rtt_min": "Cc",
+         "cls_derive_max_delay_budget": "Cls", "cls_target_best_delay_ms": "Cls", "cls_target_safe_delay_ms": "Cls",
+         "cls_target_max_delay_ms": "Cls", "cls_pick_tier": "Cls",
          "regime_from_bps": "Batch", "regime_batch_size": "Batch", "batch_queue_packet": "Batch",
          "batch_set_regime": "Batch", "conn_recompute_batch_regime": "Batch"}
 # groups with a canonical signature: parameters = the self fields read in struct declaration order, then the
@@ -61,7 +63,7 @@ GROUP = {"backoff_delay": "Recon", "should_attempt_reconnect": "Recon", "record_
 # two same-typed arguments of a wrapper can move a parameter under the lemma that applies it by position.
 CANONICAL_GROUPS = {"Stall", "Recov", "Cfg", "Reg", "Trk", "Batch", "Crit", "Cc", "Cls"}
 # groups whose definitions may use f64 values (header additionally imports Floats, FConstants, Select)
-FLOAT_GROUPS = {"Stall", "Recov", "Batch", "Cc"}
+FLOAT_GROUPS = {"Stall", "Recov", "Batch", "Cc", "Cls"}
 CORE = "crates/srtla-core/src/"
 
 # (coq name, file, impl type or None for a free fn, fn name)
@@ -124,11 +126,17 @@ LEAVES = [
     ("cc_observe_traffic", CORE + "selection/link_cc.rs", "LinkCongestionState", "observe_traffic"),
     ("cc_pick_climb_mode", CORE + "selection/link_cc.rs", "LinkCongestionState", "pick_climb_mode"),
     ("cc_update_rtt_min", CORE + "selection/link_cc.rs", "LinkCongestionState", "update_rtt_min"),
+    # weak-link classifier (C17): delay budget, the three tier targets, the tier cascade
+    ("cls_derive_max_delay_budget", CORE + "selection/classifier.rs", None, "derive_max_delay_budget"),
+    ("cls_target_best_delay_ms", CORE + "selection/classifier.rs", None, "target_best_delay_ms"),
+    ("cls_target_safe_delay_ms", CORE + "selection/classifier.rs", None, "target_safe_delay_ms"),
+    ("cls_target_max_delay_ms", CORE + "selection/classifier.rs", None, "target_max_delay_ms"),
+    ("cls_pick_tier", CORE + "selection/classifier.rs", None, "pick_tier"),
 ]
 
 # leaves whose equivalence lemma mentions leaf_<name>_asserts: the definition is emitted even when the
 # current body asserts nothing
-ALWAYS_ASSERTS = {"set_conn_timeout_ms"}
+ALWAYS_ASSERTS = {"set_conn_timeout_ms", "cls_derive_max_delay_budget"}
 # getters of untranslated component types that are read as an *input* of the leaf (named
 # <field path>_<getter>); everything else called on a component is a translation error
 OPAQUE_GETTERS = {("KalmanFilter", "value"): "f64", ("KalmanFilter", "velocity"): "f64"}
@@ -934,6 +942,13 @@ def ev(e, env):
     if k == "cast":
         s, t = ev(e[2], env)
         ty = e[1]
+        if (t, ty) == ("f64", "u32"):
+            # truncating, saturating, NaN -> 0 like `as u64`, with the smaller ceiling: min(u32::MAX, x as u64)
+            ctx.uses_float = True
+            return "(Z.min (two32 - 1) (Select.f64_as_u64 %s))" % s, ty
+        if (t, ty) == ("u32", "f64"):
+            ctx.uses_float = True
+            return "(Select.f64_of_u64 %s)" % s, ty      # exact: every u32 is a u64 below 2^53
         if (t, ty) in FCAST:
             ctx.uses_float = True
             return "(%s %s)" % (FCAST[(t, ty)], s), ty
